@@ -1,6 +1,8 @@
 from vlib import runner, sysprops
 
-PARTIAL = ["chains of 2-3 hops are covered by the C07 chain family's real client/server hops, not by this model"]
+PARTIAL = [
+    'with an OpenTelemetry subscriber the trace context is taken from the span (ids chosen by the SDK): that branch is not modelled; the sub=2 families only check absence of panics (C16)',
+]
 
 
 def run(tier, seed, replay):
